@@ -13,7 +13,6 @@ pub trait Compressable {
     fn compress(&self) -> Self::Compressed;
 }
 pub trait Precomputable { type Precomputation; }
-pub trait CryptoRngCore {}
 
 pub uninterp spec fn cp_bytes(c: CP) -> Seq<u8>;
 pub uninterp spec fn cp_is_id(c: CP) -> bool;
